@@ -348,6 +348,59 @@ func c12FastVariant(how, si int, sp *GenomeSpec, input []float64, depth int) (ou
 	return solver.ReadOutputs(), nil
 }
 
+// c12FastAfterUse: ONE derived fast solver is used through entry point `first` on another input vector,
+// flushed, and then evaluated through entry point `second`: a flushed solver computes the function again
+// whatever it was used for before.
+func c12FastAfterUse(first, second int, sp *GenomeSpec, input []float64, depth int) (outs []float64, err error) {
+	defer func() {
+		if r := recover(); r != nil {
+			err = fmt.Errorf("panic: %v", r)
+		}
+	}()
+	net, err := sp.Build().Genesis(1)
+	if err != nil {
+		return nil, err
+	}
+	solver, err := net.FastNetworkSolver()
+	if err != nil {
+		return nil, err
+	}
+	run := func(si int) (bool, error) {
+		switch si {
+		case 3:
+			return solver.ForwardSteps(depth)
+		case 5:
+			return solver.RecursiveSteps()
+		}
+		_, e := solver.Relax(depth+3, 5e-324)
+		return true, e
+	}
+	other := make([]float64, len(input))
+	for i := range other {
+		other[i] = 1.5 - float64(i)
+	}
+	if err = solver.LoadSensors(other); err != nil {
+		return nil, err
+	}
+	if _, err = run(first); err != nil {
+		return nil, err
+	}
+	if _, err = solver.Flush(); err != nil {
+		return nil, err
+	}
+	if err = solver.LoadSensors(input); err != nil {
+		return nil, err
+	}
+	res, err := run(second)
+	if err != nil {
+		return nil, err
+	}
+	if !res {
+		return nil, fmt.Errorf("solver reported failure")
+	}
+	return solver.ReadOutputs(), nil
+}
+
 var c12HowNames = []string{"", " [restored from its written model, flushed before use]", " [constructed directly, bias links as connections, flushed before use]"}
 
 func c12Eval(cs c12Case) (fails [][2]string, excluded, skipped bool, depth int) {
@@ -394,6 +447,20 @@ func c12Eval(cs c12Case) (fails [][2]string, excluded, skipped bool, depth int) 
 		for i := range want {
 			if !relClose(got[i], want[i], 1e-11) && math.Abs(got[i]-want[i]) > 1e-13 {
 				fails = append(fails, [2]string{name + "/value", fmt.Sprintf("%s output %d = %.17g, topological evaluation gives %.17g", name, i, got[i], want[i])})
+				break
+			}
+		}
+	}
+	for _, pr := range [][2]int{{5, 3}, {3, 5}, {6, 3}, {5, 6}} {
+		name := c12Solvers[pr[1]] + " [same solver used through " + c12Solvers[pr[0]] + " on another input and flushed before]"
+		got, err := c12FastAfterUse(pr[0], pr[1], g, cs.Input, depth)
+		if err != nil {
+			fails = append(fails, [2]string{name + "/error", fmt.Sprintf("%s failed: %v", name, err)})
+			continue
+		}
+		for i := range want {
+			if i >= len(got) || (!relClose(got[i], want[i], 1e-11) && math.Abs(got[i]-want[i]) > 1e-13) {
+				fails = append(fails, [2]string{name + "/value", fmt.Sprintf("%s output %d = %v, topological evaluation gives %.17g", name, i, got, want[i])})
 				break
 			}
 		}
